@@ -104,7 +104,49 @@ def _call(modname, fname, chunk):
         aux = getattr(mod, fname)(chunk, ctx)
     except BaseException as e:  # harness error inside a chunk: fatal, not a verdict
         return ("error", "%s in %s(%r):\n%s" % (type(e).__name__, fname, chunk, traceback.format_exc()), None)
+    for ent in ctx.viol.values():
+        for v in ent["first"]:
+            v.setdefault("_chunk", (fname, chunk))
     return ("ok", ctx, aux)
+
+
+_RERUN_CODE = r'''
+import os, pickle, sys
+sys.path.insert(0, sys.argv[2])
+alt = os.environ.get("VERIF_DENDROPY_SRC")
+if alt:
+    sys.path.insert(0, os.path.realpath(alt))
+from mc import runner
+modname, fname, chunk, sig = pickle.load(open(sys.argv[1], "rb"))
+for k in (1, 2):
+    st, c, aux = runner._call(modname, fname, chunk)
+    if st == "ok" and sig in c.viol:
+        print("REPRODUCED-IN-FRESH-PROCESS run=%d" % k)
+        break
+'''
+
+
+def rerun_chunk_in_fresh_process(modname, fname, chunk, sig, timeout=1800):
+    """A violation whose single witness does not reproduce in isolation may depend on what the
+    same process evaluated before (state kept at module or class level by the library).  The
+    chunk that reported it is re-run from its beginning in a fresh interpreter - once, and
+    once more after itself; exploration inside a chunk is deterministic, so a genuine
+    history-dependent violation shows again and the chunk is its replayable artefact."""
+    import pickle
+    import tempfile
+    d = tempfile.mkdtemp(prefix="verif-rerun-")
+    try:
+        path = os.path.join(d, "chunk.pkl")
+        with open(path, "wb") as f:
+            pickle.dump((modname, fname, chunk, sig), f)
+        r = subprocess.run([sys.executable, "-c", _RERUN_CODE, path, VERIF], capture_output=True, text=True,
+                           timeout=timeout, cwd=VERIF)
+        return "REPRODUCED-IN-FRESH-PROCESS" in r.stdout
+    except Exception:
+        return False
+    finally:
+        import shutil
+        shutil.rmtree(d, ignore_errors=True)
 
 
 class HarnessError(Exception):
@@ -230,7 +272,20 @@ def run_check(modname, tier="quick", seed=0, replay=None):
             with open(replay) as f:
                 body = json.load(f)
             case = body["case"] if "case" in body else body
-            mod.replay(case, runner.ctx)
+            if isinstance(case, dict) and case.get("kind") == "chunk-rerun":
+                # history-dependent violation: re-run the recorded chunk from its beginning (twice)
+                import base64
+                import pickle
+                fname, chunk = pickle.loads(base64.b64decode(case["chunk_pickle_b64"]))
+                for _ in (1, 2):
+                    st, c, aux = _call(mod.__name__, fname, chunk)
+                    if st != "ok":
+                        raise HarnessError(c)
+                    runner.ctx.merge(c)
+                    if case.get("signature") in c.viol:
+                        break
+            else:
+                mod.replay(case, runner.ctx)
         elif hasattr(mod, "explore"):
             mod.explore(tier, runner)
         else:
@@ -253,7 +308,7 @@ def run_check(modname, tier="quick", seed=0, replay=None):
         else:
             new.append((sig, ent))
     # confirm every new violation by replaying its witness in this process
-    confirmed, flaky = [], []
+    confirmed, flaky, history_dependent = [], [], []
     for sig, ent in new:
         v = ent["first"][0]
         if replay is None and hasattr(mod, "replay") and not getattr(mod, "NO_REPLAY_CONFIRM", False):
@@ -264,6 +319,17 @@ def run_check(modname, tier="quick", seed=0, replay=None):
                 c2.violation("replay-crashed", repr(e), v["case"])
             if sig in c2.viol:
                 confirmed.append((sig, ent))
+            elif v.get("_chunk") is not None and rerun_chunk_in_fresh_process(
+                    mod.__name__, v["_chunk"][0], v["_chunk"][1], sig):
+                v["message"] += ("  [history-dependent: the single witness passes in isolation, but re-running the "
+                                 "chunk that reported it from its beginning in a fresh interpreter reports it again; "
+                                 "the replay file carries the chunk]")
+                import base64
+                import pickle
+                v["case"] = {"kind": "chunk-rerun", "function": v["_chunk"][0], "chunk": _jsonable(v["_chunk"][1]),
+                             "chunk_pickle_b64": base64.b64encode(pickle.dumps(tuple(v["_chunk"]))).decode("ascii"),
+                             "signature": sig, "witness": _jsonable(v["case"])}
+                history_dependent.append((sig, ent))
             else:
                 flaky.append((sig, ent, sorted(c2.viol)))
         else:
@@ -280,11 +346,20 @@ def run_check(modname, tier="quick", seed=0, replay=None):
         print("  signature: %s  (%d cases)" % (sig, ent["count"]))
         print("  %s" % (v["message"],))
         rc = 1
+    for sig, ent in history_dependent:
+        v = ent["first"][0]
+        path = write_replay(pid, v)
+        print("VIOLATION property=%s replay=%s" % (pid, path))
+        print("  signature: %s  (%d cases)" % (sig, ent["count"]))
+        print("  %s" % (v["message"],))
+        rc = 1
+    confirmed = confirmed + history_dependent
     for sig, ent, got in flaky:
         print("HARNESS-WARNING property=%s non-reproducible violation %s (replay gave %s): %s" % (
             pid, sig, got, ent["first"][0]["message"]))
         print("  case: %s" % json.dumps(_jsonable(ent["first"][0]["case"]))[:2000])
-        rc = max(rc, 3)
+        if rc == 0:
+            rc = 3  # nothing confirmed, something unexplained: the check itself needs attention
     wall = time.time() - t0
     if replay is None:
         write_evidence(mod, tier, seed, ctx, wall, len(confirmed), [s for s, _ in known_hit], runner.notes)
